@@ -38,7 +38,8 @@ IDS = [
     "1a2b3c4d-0001-4000-8000-00000000a001",
     "1a2b3c4d-0002-4000-8000-00000000b002",
     "1a2b3c4d-0003-4000-8000-00000000c003",
-    "1a2b3c4d-0004-4000-8000-00000000d004",  # never paired by the generator unless chosen
+    "1a2b3c4d-0004-4000-8000-00000000d004",  # never paired by the C02 generator
+    "1a2b3c4d-0005-4000-8000-00000000e005",
 ]
 SPELLINGS = ["upper", "lower", "mixed", "braces", "nodash"]
 BAD_IDS = [b"", b"not-a-uuid", b"\xff\xfe\xfd", b"1a2b3c4d-0001-4000-8000-00000000a00", b"zzzzzzzz-0001-4000-8000-00000000a001"]
@@ -141,7 +142,11 @@ class World:
             p.start()
         self.loop = asyncio.new_event_loop()
         asyncio.set_event_loop(self.loop)
-        self.driver = accessory_driver.AccessoryDriver(loop=self.loop, persist_file="/tmp/verif-c02-unused.state")
+        import pyhap.loader as loader
+
+        self.driver = accessory_driver.AccessoryDriver(
+            loop=self.loop, persist_file="/tmp/verif-unused.state", loader=loader.get_loader()
+        )
         self.driver.add_accessory(accessory.Accessory(self.driver, "Acc"))
         self.hap_protocol = hap_protocol
         self.connections: Dict[Any, Any] = {}
